@@ -493,6 +493,8 @@ pub fn alphabet(cfg: &Cfg) -> Vec<Op> {
             a.push(Op::Iter);
             a.push(Op::Adv(1));
             a.push(Op::Adv(2));
+            // arms the invalidate_all watermark, which shares code with the expiry checks
+            a.push(Op::InvAll);
             if s && !cfg.autosync {
                 a.push(Op::Sync);
             }
@@ -536,6 +538,10 @@ pub fn alphabet(cfg: &Cfg) -> Vec<Op> {
             per_key(&mut a, Op::Get, n);
             per_key(&mut a, Op::Inv, n);
             a.push(Op::InvAll);
+            if !s {
+                a.push(Op::InvIf(Pred::Keys(0b001)));
+                a.push(Op::InvIf(Pred::All));
+            }
             if cfg.a > 0 {
                 a.push(Op::Adv(1));
             }
